@@ -93,27 +93,61 @@ func (tb Table) OffsetAt(u int64) int64 {
 	return o
 }
 
-// NoTransIn: no transition instant in (a, b]  (mirror of Tz.no_trans_in)
-func (tb Table) NoTransIn(a, b int64) bool {
+const alpha = -1 << 63
+const omega = 1<<63 - 1
+
+// lookup mirrors Tz.lookup: offset in force at u and the bounds [start, end) of its period.
+func (tb Table) lookup(u int64) (off, start, end int64) {
+	off, start, end = tb.Init, alpha, omega
 	for _, t := range tb.Trans {
-		if !(t[0] <= a || b < t[0]) {
-			return false
+		if u < t[0] {
+			return off, start, t[0]
 		}
+		off, start = t[1], t[0]
 	}
-	return true
+	return off, start, omega
 }
 
-// EdgeOK mirrors Tz.edge_okb: offsets within a day and no transition within a day of wall second L.
-func (tb Table) EdgeOK(L int64) bool {
-	if tb.Init < -86400 || tb.Init > 86400 {
+// LocalToUTC mirrors Tz.local_to_utc (time.Date's offset search) on the table.
+func (tb Table) LocalToUTC(L int64) int64 {
+	o, s, e := tb.lookup(L)
+	if o == 0 {
+		return L
+	}
+	utc := L - o
+	if utc < s || utc >= e {
+		o = tb.OffsetAt(utc)
+	}
+	return L - o
+}
+
+// DayOff mirrors Tz.day_off: the offset in force at the instant time.Date gives for local midnight of day D.
+func (tb Table) DayOff(D int64) int64 { return tb.OffsetAt(tb.LocalToUTC(D * 86400)) }
+
+// CrossOK mirrors Tz.cross_okb: wall second L is shown exactly once by the local clock, at LocalToUTC(L).
+func (tb Table) CrossOK(L int64) bool {
+	U := tb.LocalToUTC(L)
+	if U+tb.OffsetAt(U) != L {
 		return false
 	}
-	for _, t := range tb.Trans {
-		if t[1] < -86400 || t[1] > 86400 {
-			return false
+	periodOK := func(cur, s, e int64, last bool) bool {
+		switch {
+		case !last && e <= U:
+			return e-1+cur < L
+		case U < s:
+			return L <= s+cur
+		default:
+			return U+cur == L
 		}
 	}
-	return tb.NoTransIn(L-86400, L+86400)
+	cur, start := tb.Init, int64(alpha)
+	for _, t := range tb.Trans {
+		if !periodOK(cur, start, t[0], false) {
+			return false
+		}
+		cur, start = t[1], t[0]
+	}
+	return periodOK(cur, start, 0, true)
 }
 
 // Transitions of loc inside [from,to] as unix seconds (for boundary-heavy generation).
